@@ -38,6 +38,8 @@ pub async fn insert_and_maybe_flush(
         "Inserting event into MemTable"
     );
     ctx.memtable.insert(event)?;
+    #[cfg(sneldb_verif)]
+    crate::verif::step("store.mem_inserted", &format!("\"shard\":{},\"len\":{}", ctx.id, ctx.memtable.len()));
 
     // 3. If MemTable is full, flush and rotate
     if ctx.memtable.is_full() {
@@ -71,6 +73,8 @@ pub async fn insert_and_maybe_flush(
                 None,
             )
             .await?;
+        #[cfg(sneldb_verif)]
+        crate::verif::step("store.rotated", &format!("\"shard\":{},\"seg\":{current_segment_id}", ctx.id));
 
         // Opportunistic pruning: every max_inflight/2 rotations
         let prune_every = std::cmp::max(1, ctx.passive_buffers.max_inflight() / 2);
